@@ -2,7 +2,7 @@
 """Regenerates /verif/MANIFEST.json from the table below (single source of truth)."""
 import json, subprocess
 
-HOOK_COMMITS = ["d85c6ee", "170bde9", "43ffa35", "8043914", "4c6f2d6", "8d2eb59", "c0750bc", "07810ed"]
+HOOK_COMMITS = ["d85c6ee", "170bde9", "43ffa35", "8043914", "4c6f2d6", "8d2eb59", "c0750bc", "07810ed", "03e130d"]
 
 # id -> (engine, category, technique, level text, level note, design ref)
 CHECKS = {
